@@ -15,4 +15,4 @@ one() {
   rm -rf $S/$id $S/$id.out
 }
 export -f one
-ls -d $OUT/C[0-9][0-9]-[0-9] 2>/dev/null | xargs -r -P 8 -I{} bash -c "one {} $S" 
+ls -d $OUT/C[0-9][0-9]-[0-9]* 2>/dev/null | xargs -r -P 8 -I{} bash -c "one {} $S" 
